@@ -1,9 +1,9 @@
 (* C11 — null=X is exactly "replace every NULL node by X", whatever else is configured. *)
-From Coq Require Import List String.
+From Coq Require Import List String ZArith.
 Import ListNotations.
 Open Scope string_scope.
 Open Scope list_scope.
-From MoSql Require Import Base.Json Model.Scrub Proofs.Slots.
+From MoSql Require Import Base.Json Model.Scrub Proofs.Slots Proofs.Simplified Proofs.Calls.
 
 (* the substitution loop over the recorded slots equals substitution of every marker below the root,
    for every raw tree, every callback mode (simple_op, normal_op, custom) and every rename map *)
@@ -22,3 +22,11 @@ Proof.
   injection Ex as <-. injection Ey as <-. exists v0.
   split; apply (null_subst m fm _ r v0 ps Hg Es).
 Qed.
+
+(* non-vacuity: the raw result of  select f(a, NULL) over NULL from t  (a call with a NULL argument and a NULL keyword argument) meets the premises *)
+Example C11_premise_satisfiable :
+  let r0 := RPR true [("select", [RPR true [("value", [RCall "f" (RList [RStr "a"; RMark]) [("over", RMark)]])] []]); ("from", [RStr "t"])] [] in
+  goodb MSimple [] r0 = true /\ goodb MNormal [("f", "g")] r0 = true /\ nofakeb [] r0 = true /\ nofakeb_n [("f", "g")] r0 = true /\
+  parse_result MSimple [] (JInt 7%Z) r0
+    = Some (JDict [("select", JDict [("value", JDict [("over", JInt 7%Z); ("f", JList [JStr "a"; JInt 7%Z])])]); ("from", JStr "t")]).
+Proof. vm_compute. repeat split; reflexivity. Qed.
